@@ -366,3 +366,38 @@ REAL_STUB = {
               "lodepng (decode fails)", "MarchingCubes (empty mesh)"],
     "not_built": ["plugins", "OBJ/STL decoders", "rendering", "simulate", "python bindings", "MJX"],
 }
+
+
+def merge_evidence(prop, evs, rule, t0):
+    """one evidence file for a property whose check has several runners: the last record plus the others' stages"""
+    evs = [e for e in evs if e]
+    if len(evs) < 2:
+        return
+    ev = evs[-1]
+    cov = ev["coverage"]
+    cov["rule"] = rule
+    for o in evs[:-1]:
+        oc = o["coverage"]
+        cov["evaluations"] = int(cov.get("evaluations", 0)) + int(oc.get("evaluations", 0))
+        cov["distinct_nontrivial"] = int(cov.get("distinct_nontrivial", 0)) + int(oc.get("distinct_nontrivial", 0))
+        cov["stages"] = oc.get("stages", []) + cov.get("stages", [])
+        cov["samples"] = (oc.get("samples", []) + cov.get("samples", []))[:3]
+        fc = dict(oc.get("failure_classes_seen", {}))
+        fc.update(cov.get("failure_classes_seen", {}))
+        cov["failure_classes_seen"] = fc
+        ev["violations"] = int(ev.get("violations", 0)) + int(o.get("violations", 0))
+        hp = (o.get("harness_problems") or []) + (ev.get("harness_problems") or [])
+        if hp:
+            ev["harness_problems"] = hp
+    ev["wall_s"] = round(time.time() - t0, 2)
+    cov["runs_per_hour"] = int(cov["evaluations"] / max(ev["wall_s"], 1e-9) * 3600)
+    with open(os.path.join(EVIDENCE, "%s.json" % prop), "w") as f:
+        json.dump(ev, f, indent=1)
+
+
+def load_evidence(prop):
+    try:
+        with open(os.path.join(EVIDENCE, "%s.json" % prop)) as f:
+            return json.load(f)
+    except (OSError, ValueError):
+        return None
